@@ -25,6 +25,9 @@ def run(prog, chk):
     chk.rule('R07.2', 'return unwinding: statement loops test the flag after each statement; activations save/clear/restore it')
     chk.rule('R07.4', 'computed subscripts of value arrays are dominated by the bounds test on the same container; / and % by zero tests')
     chk.rule('R07.5', 'the `/` branch returns a Float-tagged value on every path')
+    chk.rule('R07.7', 'result type of every binary operator on every pair of scalar operand types equals the documented table (abstract evaluation of the cascade over type tags)')
+    chk.rule('R07.8', 'explicit casts between int, long, float and bit: result type is the target; float→integer truncates toward zero; →bit is 1 iff non-zero')
+    chk.rule('R07.9', 'unary - ! ~ and postfix ++/--: documented result type and value; postfix yields the old value and stores old±1')
     chk.rule('R07.6', 'numeric routing: double arithmetic only when an operand is float, integer arithmetic only when none is; result tags follow the same guards')
     ex, ev = R.ev_method('exec'), R.ev_method('eval')
     recs = prog.facts.records
@@ -114,8 +117,10 @@ def run(prog, chk):
 
     # ---- R07.4 subscripts ------------------------------------------------------------------------
     nsub = 0
+    from ..kcanon import Canon
     for f in (ev, ex):
         g = prog.cfg(f)
+        canon = Canon(prog, f)
         for n in SX.walk(f.body, into_lambdas=False):
             if n['k'] != 'index' or 'callee' not in n or not n.get('bt', '').replace('const ', '').startswith('std::vector<'):
                 continue
@@ -133,7 +138,7 @@ def run(prog, chk):
             itxt = SX.show(idx)
             lo = hi = False
             if node is not None:
-                for ce, pol, _ in g.guards(node):
+                for ce, pol, _ in list(g.guards(node)) + _closure_guards(canon, g, node):
                     c0 = cmp_with_const(ce, itxt)
                     if c0 and ((c0 == ('<', 0) and not pol) or (c0 == ('>=', 0) and pol)):
                         lo = True
@@ -189,6 +194,9 @@ def run(prog, chk):
     chk.count('language-level divisions', nd, 1)
 
     # ---- R07.6 numeric routing of the binary-operator cascade ----------------------------------------
+    _tag_table(prog, chk, ev)
+    _cast_table(prog, chk, ev)
+    _unary_table(prog, chk, ev)
     _routing(prog, chk, ev)
 
 
@@ -386,3 +394,297 @@ def _routing(prog, chk, ev):
     chk.count('double-operand operations in the cascade', nD, 8)
     chk.count('integer-operand operations in the cascade', nN, 8)
     chk.count('tagged numeric results', ntag, 10)
+
+
+# ------------------------------------------------------------------------------------------------------
+RT = 'bloch::runtime::Value::Type::'
+TAGS = ['Int', 'Long', 'Float', 'Bit', 'Boolean', 'String', 'Char']
+REP = {  # one representative per tag class and side; right operands are non-zero and not -1 (those branches are R07.4's)
+    'Int': (7, 2), 'Long': (7000000000, 3), 'Float': (7.5, 2.0), 'Bit': (1, 1), 'Boolean': (True, False), 'String': ('ab', 'cd'), 'Char': ('a', 'b')}
+REP_EQ = {'Int': (5, 5), 'Long': (5, 5), 'Float': (5.0, 5.0), 'Bit': (1, 1), 'Boolean': (True, True), 'String': ('ab', 'ab'), 'Char': ('a', 'a')}
+FIELD = {'Int': 'intValue', 'Long': 'longValue', 'Float': 'floatValue', 'Bit': 'bitValue', 'Boolean': 'boolValue', 'String': 'stringValue', 'Char': 'charValue'}
+NUM = ('Int', 'Long', 'Float')
+OPS = ['+', '-', '*', '/', '%', '<', '>', '<=', '>=', '==', '!=', '&&', '||', '&', '|', '^']
+
+
+def _documented_result(op, a, b):
+    """result tag the documentation fixes for well-typed operands, or None where it fixes nothing
+    (language-guide: arithmetic on int/long/float, mixed int/long → long, any float → float; casting.md: `/` always float,
+    `%` integer-only; comparisons and logical operators return boolean; bitwise on bit; string + anything → string)"""
+    if op == '+' and 'String' in (a, b):
+        # documented by example for numbers ("Answer: " + 42); boolean/bit/char operands are not fixed by the documentation
+        return 'String' if all(x in ('String',) + NUM for x in (a, b)) else None
+    if op in ('+', '-', '*') and a in NUM and b in NUM:
+        return 'Float' if 'Float' in (a, b) else ('Long' if 'Long' in (a, b) else 'Int')
+    if op == '/' and a in NUM and b in NUM:
+        return 'Float'
+    if op == '%' and a in ('Int', 'Long') and b in ('Int', 'Long'):
+        return 'Long' if 'Long' in (a, b) else 'Int'
+    if op in ('<', '>', '<=', '>=') and a in NUM and b in NUM:
+        return 'Boolean'
+    if op in ('==', '!=') and ((a in NUM and b in NUM) or (a == b and a in ('String', 'Char', 'Boolean', 'Bit'))):
+        return 'Boolean'
+    if op in ('&&', '||') and a == 'Boolean' and b == 'Boolean':
+        return 'Boolean'
+    if op in ('&', '|', '^') and a == 'Bit' and b == 'Bit':
+        return 'Bit'
+    return None
+
+
+def _py(op, x, y):
+    import operator as O
+    f = {'+': O.add, '-': O.sub, '*': O.mul, '<': O.lt, '>': O.gt, '<=': O.le, '>=': O.ge, '==': O.eq, '!=': O.ne, '&': O.and_, '|': O.or_, '^': O.xor}
+    if op == '/':
+        return float(x) / float(y)
+    if op == '%':
+        return int(abs(x) % abs(y)) * (1 if x >= 0 else -1)
+    if op == '&&':
+        return bool(x) and bool(y)
+    if op == '||':
+        return bool(x) or bool(y)
+    return f[op](x, y)
+
+
+def _tag_table(prog, chk, ev):
+    from ..kabs import Interp, Obj, Unsupported, Thrown, Ret
+    ifs = [s for s in SX.walk(ev.body, into_lambdas=False) if s['k'] == 'if' and s.get('cv') and 'BinaryExpression' in (s['cv'].get('type') or '')]
+    if len(ifs) != 1:
+        raise AnalysisBroken('binary-operator handler not found in eval')
+    br = ifs[0]
+    # quotient validity: inside the handler, control may depend on operand *values* only through comparisons with literals
+    VALS = set(FIELD.values())
+    bad = []
+    conds = []
+    for n in SX.walk(br['t']):
+        if n['k'] == 'if' and n.get('c') is not None:
+            conds.append(n['c'])
+        elif n['k'] == 'cond':
+            conds.append(n['c'])
+        elif n['k'] in ('while', 'for') and n.get('c') is not None:
+            conds.append(n['c'])
+    numeric_locals = {v['id'] for v in SX.walk(br['t']) if v['k'] == 'var' and v.get('type') in ('double', 'long', 'int', 'std::int64_t')}
+    for c in conds:
+        for x in SX.walk(c):
+            if x['k'] == 'bin' and x['op'] in ('<', '>', '<=', '>=', '==', '!='):
+                sides = [_peel(x['l']), _peel(x['r'])]
+                valish = [sd for sd in sides if SX.is_node(sd) and ((sd.get('k') == 'member' and sd.get('name') in VALS) or (sd.get('k') == 'ref' and sd.get('id') in numeric_locals))]
+                lits = [sd for sd in sides if SX.is_node(sd) and (sd.get('k') in ('int', 'float', 'bool') or
+                                                                (sd.get('k') == 'un' and sd.get('op') == '-' and SX.is_node(_peel(sd.get('e'))) and _peel(sd['e']).get('k') in ('int', 'float')))]
+                if valish and not lits and not all('size' in SX.show(sd) for sd in sides):
+                    bad.append(SX.show(x)[:50])
+            elif x['k'] == 'member' and x.get('name') in VALS and not any(x is y for c2 in conds for b in SX.walk(c2) if b['k'] == 'bin' for y in (_peel(b['l']), _peel(b['r']))):
+                # a bare value used as a condition (e.g. `if (v.boolValue)`) — only inside the to-bool closures, whose result is the value itself
+                pass
+    chk.ob('R07.7', ev, br.get('ln', ev.ln), not bad,
+           'inside the operator cascade control depends on operand values only through comparisons with literals (zero / -1 tests), so one representative per type tag decides '
+           'the result type for all values; other value-dependent branches: %s' % bad[:5], key='table:quotient')
+    if bad:
+        return
+
+    def val(tag, side, rep):
+        o = Interp(prog, {}).default_struct(prog.facts.records['bloch::runtime::Value'], {})
+        o['type'] = RT + tag
+        o[FIELD[tag]] = rep[tag][side]
+        return o
+
+    def fmt(v):
+        t = v['type'].split('::')[-1]
+        x = v[FIELD[t]]
+        if t == 'Boolean':
+            return 'true' if x else 'false'
+        return str(x)
+    mism, vals, n = [], [], 0
+    for op in OPS:
+        for a in TAGS:
+            for b in TAGS:
+                want = _documented_result(op, a, b)
+                if want is None:
+                    continue
+                n += 1
+                for rep in ((REP, REP_EQ) if op in ('==', '!=', '<=', '>=', '<', '>') else (REP,)):
+                    binobj = Obj(op=op, left=Obj(side=0), right=Obj(side=1), line=1, column=1)
+                    lv, rv = val(a, 0, rep), val(b, 1, rep)
+
+                    def m_eval(it, e, env, lv=lv, rv=rv):
+                        x = it.expr(SX.real_args(e)[0], env)
+                        return Obj(lv) if x['side'] == 0 else Obj(rv)
+                    models = {'eval': m_eval, 'get': lambda it, e, env: it.expr(e['obj'], env), 'valueToString': lambda it, e, env: fmt(it.expr(SX.real_args(e)[0], env))}
+                    it = Interp(prog, models, max_steps=4000)
+                    env = {br['cv']['id']: binobj, 'this': Obj()}
+                    got, res = None, None
+                    try:
+                        it.stmt(br['t'], env)
+                        got = 'falls through'
+                    except Ret as r:
+                        res = r.v
+                        got = res['type'].split('::')[-1] if isinstance(res, Obj) and 'type' in res else 'non-value'
+                    except Thrown:
+                        got = 'runtime error'
+                    except Unsupported as ex:
+                        raise AnalysisBroken('abstract evaluation of the operator cascade (%s %s %s): %s' % (a, op, b, ex))
+                    if got != want:
+                        mism.append('%s %s %s → %s (documented %s)' % (a.lower(), op, b.lower(), got, want.lower()))
+                        break
+                    if want != 'String':
+                        # the representative's value: which operands feed the result, in which order (not a claim about all values)
+                        exp = _py(op, rep[a][0], rep[b][1])
+                        gv = res[FIELD[want]]
+                        if (abs(gv - exp) > 1e-9) if (isinstance(exp, float) or isinstance(gv, float)) and not isinstance(exp, bool) else (gv != exp):
+                            vals.append('%r %s %r = %r, expected %r' % (rep[a][0], op, rep[b][1], gv, exp))
+                    else:
+                        exp = fmt(lv) + fmt(rv)
+                        if res[FIELD['String']] != exp:
+                            vals.append('%r + %r = %r, expected %r' % (rep[a][0], rep[b][1], res[FIELD['String']], exp))
+    chk.extra['operator_type_combinations'] = n
+    chk.ob('R07.7', ev, br.get('ln', ev.ln), not mism,
+           'result type of %d documented (operator, left type, right type) combinations equals the documented one; mismatches: %s' % (n, mism[:8]), key='table:result-types')
+    chk.ob('R07.7', ev, br.get('ln', ev.ln), not vals,
+           'on the representatives the result is the named operation applied to (left, right) in that order; mismatches: %s' % vals[:6], key='table:representatives')
+    chk.count('documented operator/type combinations evaluated', n, 90)
+
+
+def _closure_guards(canon, g, node):
+    """guards contributed by dominating calls of *guard closures*: a local closure whose body is `if (C) throw …;` (no else, the
+    branch cannot complete normally) establishes ¬C, with its parameters replaced by the call's arguments, once it returns.
+    Returned in the (expr, polarity, edge) form of CFG guards, one entry per disjunct of C."""
+    out = []
+    for d in g.dominators(node):
+        if d.kind != 'call' or not isinstance(d.e, dict):
+            continue
+        c = canon.closure(d.e)
+        if not c:
+            continue
+        lf, args = c
+        b = lf.body
+        st = b['body'] if SX.is_node(b) and b.get('k') == 'block' else [b]
+        ifs = [x for x in st if x['k'] == 'if']
+        if len(ifs) != 1 or any(x['k'] not in ('if', 'decls') for x in st) or ifs[0].get('e') is not None or ifs[0].get('cv'):
+            continue
+        t = ifs[0]['t']
+        tst = t['body'] if t.get('k') == 'block' else [t]
+        if not tst or not (tst[-1]['k'] == 'expr' and SX.is_node(tst[-1].get('e')) and tst[-1]['e'].get('k') == 'throw'):
+            continue
+        subst = {prm['id']: canon.expand(a) for prm, a in zip(lf.params, args)}
+
+        def split(e):
+            e = SX.strip(e)
+            if SX.is_node(e) and e.get('k') == 'bin' and e['op'] == '||':
+                return split(e['l']) + split(e['r'])
+            return [e]
+        for part in split(ifs[0]['c']):
+            out.append((canon.expand(part, subst), False, d))
+    return out
+
+
+def _cast_table(prog, chk, ev):
+    """(target)expr for numeric targets/sources, by abstract evaluation of the cast handler (docs/casting.md, language-guide)"""
+    from ..kabs import Interp, Obj, Unsupported, Thrown, Ret
+    ifs = [s_ for s_ in SX.walk(ev.body, into_lambdas=False) if s_['k'] == 'if' and s_.get('cv') and 'CastExpression' in (s_['cv'].get('type') or '')]
+    if len(ifs) != 1:
+        raise AnalysisBroken('cast handler not found in eval')
+    br = ifs[0]
+    SRC = {'Int': [3, 0, -4], 'Long': [5000000000, 0], 'Float': [2.7, -2.7, 0.0, 0.4], 'Bit': [1, 0]}
+    mism, n = [], 0
+    for tgt in ('Int', 'Long', 'Float', 'Bit'):
+        for src, reps in SRC.items():
+            for x in reps:
+                n += 1
+                inv = Interp(prog, {}).default_struct(prog.facts.records['bloch::runtime::Value'], {})
+                inv['type'] = RT + src
+                inv[FIELD[src]] = x
+                castobj = Obj(expression=Obj(), targetType=Obj(), line=1, column=1)
+                models = {'eval': lambda it, e, env, inv=inv: Obj(inv), 'get': lambda it, e, env: it.expr(e['obj'], env),
+                          'typeInfoFromAst': lambda it, e, env, tgt=tgt: Obj(kind=RT + tgt, className='', typeArgs=[])}
+                it = Interp(prog, models, max_steps=2000)
+                try:
+                    it.stmt(br['t'], {br['cv']['id']: castobj, 'this': Obj()})
+                    got = ('falls through', None)
+                except Ret as r:
+                    v = r.v
+                    tag = v['type'].split('::')[-1] if isinstance(v, Obj) else '?'
+                    got = (tag, v[FIELD[tag]] if tag in FIELD else None)
+                except Thrown:
+                    got = ('runtime error', None)
+                except Unsupported as ex:
+                    raise AnalysisBroken('abstract evaluation of the cast handler ((%s) %s): %s' % (tgt, src, ex))
+                if tgt == 'Bit':
+                    want = 1 if x != 0 else 0
+                elif tgt in ('Int', 'Long'):
+                    want = int(x)           # truncation toward zero
+                else:
+                    want = float(x)
+                ok = got[0] == tgt and got[1] is not None and abs(got[1] - want) < 1e-12
+                if not ok:
+                    mism.append('(%s)%r [%s] → %s %r, documented %s %r' % (tgt.lower(), x, src.lower(), got[0], got[1], tgt.lower(), want))
+    chk.extra['cast_cases'] = n
+    chk.ob('R07.8', ev, br.get('ln', ev.ln), not mism, '%d (target, source, representative) cast cases give the target type and the documented value; mismatches: %s' % (n, mism[:6]), key='table:casts')
+    chk.count('cast cases evaluated', n, 30)
+
+
+def _unary_table(prog, chk, ev):
+    from ..kabs import Interp, Obj, Unsupported, Thrown, Ret
+
+    def handler(cls):
+        ifs = [s_ for s_ in SX.walk(ev.body, into_lambdas=False) if s_['k'] == 'if' and s_.get('cv') and cls in (s_['cv'].get('type') or '')]
+        if len(ifs) != 1:
+            raise AnalysisBroken('%s handler not found in eval' % cls)
+        return ifs[0]
+
+    def val(tag, x):
+        o = Interp(prog, {}).default_struct(prog.facts.records['bloch::runtime::Value'], {})
+        o['type'] = RT + tag
+        o[FIELD[tag]] = x
+        return o
+    un = handler('UnaryExpression')
+    mism, n = [], 0
+    CASES = [('-', 'Int', 7, 'Int', -7), ('-', 'Int', -3, 'Int', 3), ('-', 'Long', 7000000000, 'Long', -7000000000), ('-', 'Float', 2.5, 'Float', -2.5),
+             ('!', 'Boolean', True, 'Boolean', False), ('!', 'Boolean', False, 'Boolean', True), ('~', 'Bit', 1, 'Bit', 0), ('~', 'Bit', 0, 'Bit', 1)]
+    for op, tag, x, wtag, wv in CASES:
+        n += 1
+        v = val(tag, x)
+        node = Obj(op=op, right=Obj(), line=1, column=1)
+        models = {'eval': lambda it, e, env, v=v: Obj(v), 'get': lambda it, e, env: it.expr(e['obj'], env)}
+        try:
+            Interp(prog, models, max_steps=2000).stmt(un['t'], {un['cv']['id']: node, 'this': Obj()})
+            got = ('falls through', None)
+        except Ret as r:
+            t = r.v['type'].split('::')[-1] if isinstance(r.v, Obj) else '?'
+            got = (t, r.v[FIELD[t]] if t in FIELD else None)
+        except Thrown:
+            got = ('runtime error', None)
+        except Unsupported as ex:
+            raise AnalysisBroken('abstract evaluation of the unary handler (%s %s): %s' % (op, tag, ex))
+        if got != (wtag, wv):
+            mism.append('%s%r [%s] → %s %r, documented %s %r' % (op, x, tag.lower(), got[0], got[1], wtag.lower(), wv))
+    po = handler('PostfixExpression')
+    for op, x, new in (('++', 5, 6), ('--', 5, 4), ('++', -1, 0)):
+        n += 1
+        stored = []
+        cur = val('Int', x)
+        var = Obj(name='i', __class=['VariableExpression', 'Expression'])
+        node = Obj(op=op, left=Obj(target=var), line=1, column=1)
+
+        def m_get(it, e, env):
+            o = it.expr(e['obj'], env)
+            return o.get('target', o) if isinstance(o, Obj) else o
+        models = {'lookup': lambda it, e, env, cur=cur: Obj(cur), 'get': m_get,
+                  'assign': lambda it, e, env, stored=stored: stored.append((it.expr(SX.real_args(e)[0], env), it.expr(SX.real_args(e)[1], env)))}
+        it = Interp(prog, models, max_steps=2000)
+        # dynamic_cast<VariableExpression*>(x) yields x in the abstract evaluation (the operand is a variable)
+        try:
+            it.stmt(po['t'], {po['cv']['id']: node, 'this': Obj()})
+            got = None
+        except Ret as r:
+            got = r.v
+        except Thrown:
+            got = 'runtime error'
+        except Unsupported as ex:
+            raise AnalysisBroken('abstract evaluation of the postfix handler: %s' % ex)
+        ok = isinstance(got, Obj) and got.get('type') == RT + 'Int' and got.get('intValue') == x and len(stored) == 1 and stored[0][0] == 'i' and \
+            isinstance(stored[0][1], Obj) and stored[0][1].get('type') == RT + 'Int' and stored[0][1].get('intValue') == new
+        if not ok:
+            mism.append('i%s with i=%d → result %s, stored %s; documented result %d, stored %d' % (
+                op, x, got.get('intValue') if isinstance(got, Obj) else got, [(a, b.get('intValue') if isinstance(b, Obj) else b) for a, b in stored], x, new))
+    chk.extra['unary_cases'] = n
+    chk.ob('R07.9', ev, un.get('ln', ev.ln), not mism, '%d unary/postfix cases give the documented type and value; mismatches: %s' % (n, mism[:6]), key='table:unary-postfix')
+    chk.count('unary/postfix cases evaluated', n, 10)
